@@ -104,8 +104,9 @@ print(json.dumps(res, indent=1))
 if res.get("confirmed") or a.keep_unconfirmed:
     dst = f"{root}/seeded/{a.sid}"
     os.makedirs(dst, exist_ok=True)
-    shutil.copy(f"{a.src}/patch.diff", f"{dst}/patch.diff")
-    shutil.copy(f"{a.src}/demo.py", f"{dst}/demo.py")
+    if os.path.realpath(a.src) != os.path.realpath(dst):
+        shutil.copy(f"{a.src}/patch.diff", f"{dst}/patch.diff")
+        shutil.copy(f"{a.src}/demo.py", f"{dst}/demo.py")
     meta = {}
     try:
         meta = json.load(open(f"{a.src}/meta.json"))
